@@ -86,6 +86,7 @@ fn session(c: Cf, queue_num: u64) -> Conn {
 fn session_pf(c: Cf, queue_num: u64, pf_set: u64) -> Conn {
     let mut script = util::full_script();
     script.queue_num = queue_num;
+    script.handler_delay_us = 150;
     let mut cn = util::conn(script, queue_num.max(8));
     let pf = if c.reply_ack { pf_set | spec::PF_REPLY_ACK } else { pf_set & !spec::PF_REPLY_ACK };
     util::negotiate(&mut cn.fe, spec::VIRTIO_F_PROTOCOL_FEATURES, Some(pf)).expect("negotiate");
@@ -104,6 +105,7 @@ fn log_len(cn: &Conn) -> usize {
 /// Issue one accepted call and check the handler log. Returns false when the session is unusable.
 fn call_case(cfg: &Cfg, cn: &mut Conn, c: Cf, op: &FeOp, kinds: u64, case: &str) -> bool {
     let before = log_len(cn);
+    let recorded_before = crate::rec::HANDLERS_RECORDED.load(std::sync::atomic::Ordering::SeqCst);
     let mut lent = Lent { kinds, ..Lent::default() };
     let out = match c.adapter {
         1 => {
@@ -144,6 +146,8 @@ fn call_case(cfg: &Cfg, cn: &mut Conn, c: Cf, op: &FeOp, kinds: u64, case: &str)
         report::hash_str(&format!("{}:{}{}{}", m, c.need_reply as u8, c.reply_ack as u8, c.adapter)),
         report::hash_bytes(&op.wire(true).0),
     ));
+    // read without the adapter's lock: taking it would wait for a handler that is still running
+    let recorded_at_return = crate::rec::HANDLERS_RECORDED.load(std::sync::atomic::Ordering::SeqCst) - recorded_before;
     let at_return: Vec<Call> = cn.be.lock().unwrap().log[before..].to_vec();
     let d = |what: &str, log: &[Call]| {
         jo! {"what" => what, "op" => op.j(), "cfg" => format!("{c:?}"), "result" => out.j(), "awaited" => awaited,
@@ -155,7 +159,7 @@ fn call_case(cfg: &Cfg, cn: &mut Conn, c: Cf, op: &FeOp, kinds: u64, case: &str)
         report::violation(&format!("C02:{}:accepted-call-failed", op.name()), d("an accepted call against a succeeding handler returned an error", &at_return), cfg.replay(case));
         return false;
     }
-    if awaited && at_return.len() != 1 {
+    if awaited && (at_return.len() != 1 || recorded_at_return != 1) {
         report::violation(&format!("C02:{}:not-invoked-before-return", op.name()), d("handler entry missing when the awaited call returned", &at_return), cfg.replay(case));
         return false;
     }
